@@ -77,7 +77,7 @@ extern "C" int LLVMFuzzerTestOneInput(const uint8_t* data, size_t size)
     c.putD("corner", corner);
     c.putI("nrhs", fdp.ConsumeIntegralInRange<int>(1, 4));
     c.putI("rhs_kind", fdp.ConsumeIntegralInRange<int>(0, 5));
-    c.putI("relocate", fdp.ConsumeIntegralInRange<int>(0, 2));
+    c.putI("relocate", fdp.ConsumeIntegralInRange<int>(0, 4));
     c.putI("restate", fdp.ConsumeIntegralInRange<int>(0, 1));
     c.putU("rhs_seed", fdp.ConsumeIntegral<uint32_t>());
     fuzzJudge(c, runTridiagCase(c));
